@@ -13,18 +13,18 @@ bvars == <<vars, trie>>
 
 BInit == Init /\ trie = TrieE
 
+BStepAdd3(log2, trie2, hr2) ==
+  /\ log' = log2
+  /\ trie' = trie2
+  /\ hroot' = hr2
+  /\ hmap' = [k \in DOMAIN hmap \cup Range(Ev.bulk) |-> 0]   \* only its domain is used here
+  /\ hyps' = <<>>
+  /\ viol' = viol \cup Fails(IF Ev.a = "add" THEN AddChecks(Ev, log2, hr2) ELSE AddBigChecks(Ev, log2, hr2))
+  /\ UNCHANGED reopened
+BStepAdd2(log2, trie2) == BStepAdd3(log2, trie2, TRoot(trie2))
 BStepAdd ==
   /\ Ev.a \in {"add", "addbig"}
-  /\ LET log2  == log \o Ev.bulk
-         trie2 == TApplyBulk(trie, Ev.bulk, Len(log))
-         hr2   == TRoot(trie2) IN
-     /\ log' = log2
-     /\ trie' = trie2
-     /\ hroot' = hr2
-     /\ hmap' = [k \in DOMAIN hmap \cup Range(Ev.bulk) |-> 0]   \* only its domain is used here
-     /\ hyps' = <<>>
-     /\ viol' = viol \cup Fails(IF Ev.a = "add" THEN AddChecks(Ev, log2, hr2) ELSE AddBigChecks(Ev, log2, hr2))
-  /\ UNCHANGED reopened
+  /\ BStepAdd2(log \o Ev.bulk, TApplyBulk(trie, Ev.bulk, Len(log)))
 
 (* the version the hyper tree holds for d, read from the trie *)
 HVal(d) == TSearch(trie, d).value
